@@ -16,6 +16,40 @@ func randBrand(r *SplitMix, n int) string {
 	return string(b)
 }
 
+// editBrand returns the brand after one character edit (case of a letter toggled, a character
+// replaced, dropped or appended); never the brand itself.
+func editBrand(r *SplitMix, b string) string {
+	x := []byte(b)
+	for try := 0; try < 20; try++ {
+		p := r.Intn(len(x))
+		y := append([]byte{}, x...)
+		switch r.Intn(4) {
+		case 0:
+			switch {
+			case y[p] >= 'a' && y[p] <= 'z':
+				y[p] -= 32
+			case y[p] >= 'A' && y[p] <= 'Z':
+				y[p] += 32
+			default:
+				continue
+			}
+		case 1:
+			y[p] = "abcXYZ019"[r.Intn(9)]
+		case 2:
+			if len(y) == 1 {
+				continue
+			}
+			y = append(y[:p], y[p+1:]...)
+		default:
+			y = append(y, "aZ5"[r.Intn(3)])
+		}
+		if string(y) != b {
+			return string(y)
+		}
+	}
+	return b + "X"
+}
+
 func genArmor(h *H) {
 	thorough := h.tier == "thorough"
 	// payload lengths covering every residue modulo the 32-byte block and the 15-character word,
@@ -26,11 +60,11 @@ func genArmor(h *H) {
 	}
 	brands := []string{"", "K", "KEYBASE", randBrand(h.rng, 127), randBrand(h.rng, 128)}
 	for l := 0; l <= maxLen; l++ {
-		h.Run(Case{Op: "armor", A: map[string]string{"payload": hx(h.rng.Bytes(l)), "typ": strconv.Itoa(l % 3), "brand": hx([]byte(brands[l%len(brands)]))}})
+		h.Run(Case{Op: "armor", A: map[string]string{"payload": hx(h.content(l)), "typ": strconv.Itoa(l % 3), "brand": hx([]byte(brands[l%len(brands)]))}})
 	}
 	for _, l := range []int{2200, 2231, 2232, 2233, 2264, 4464, 4465, 9000} {
 		h.tag("len:line-break")
-		h.Run(Case{Op: "armor", A: map[string]string{"payload": hx(h.rng.Bytes(l)), "typ": strconv.Itoa(l % 3), "brand": hx([]byte(brands[l%len(brands)]))}})
+		h.Run(Case{Op: "armor", A: map[string]string{"payload": hx(h.content(l)), "typ": strconv.Itoa(l % 3), "brand": hx([]byte(brands[l%len(brands)]))}})
 	}
 	// all-zero and all-0xff payloads (leading zero digits kept)
 	for _, l := range []int{1, 31, 32, 33, 64} {
@@ -41,7 +75,7 @@ func genArmor(h *H) {
 // adversarial frames and texts for dearmor / CheckArmor62
 func genDearmorAdversarial(h *H, n int) {
 	for i := 0; i < n; i++ {
-		payload := h.rng.Bytes(h.rng.Intn(120))
+		payload := h.content(h.rng.Intn(120))
 		typ := strconv.Itoa(h.rng.Intn(3))
 		brand := []string{"", "KB", randBrand(h.rng, 128)}[h.rng.Intn(3)]
 		good, _ := saltpack.Armor62Seal(payload, typOf[typ], brand)
@@ -51,8 +85,12 @@ func genDearmorAdversarial(h *H, n int) {
 		case 0:
 			txt = reflow(h.rng, good, 2)
 			a["want"], a["why"] = hx(payload), "re-flowed genuine armor"
-		case 1: // footer of another brand
-			txt = strings.Replace(good, ". END ", ". END X", 1)
+		case 1: // footer of another brand: the header's brand after one character edit
+			if brand == "" || h.rng.Intn(4) == 0 {
+				txt = strings.Replace(good, ". END ", ". END X", 1)
+			} else {
+				txt = strings.Replace(good, ". END "+brand+" ", ". END "+editBrand(h.rng, brand)+" ", 1)
+			}
 			a["must_reject"], a["why"] = "dearmor-accepts-bad-frame", "footer brand does not mirror the header"
 		case 2: // footer of another type
 			other := map[string]string{"0": "SIGNED MESSAGE", "1": "DETACHED SIGNATURE", "2": "ENCRYPTED MESSAGE"}[typ]
@@ -102,8 +140,10 @@ func genDearmorAdversarial(h *H, n int) {
 				if !strings.Contains(good, at) {
 					at = "SALTPACK "
 				}
-				if brand == "" && at == "SALTPACK " && extra == "EVIL " {
-					extra = "EVIL TWO " // one extra word in front of SALTPACK would just be a brand
+				if brand == "" && extra != "X Y " {
+					// with no brand, ONE extra word before the type words just reads as a brand
+					// ("BEGIN SALTPACK SALTPACK DETACHED SIGNATURE" has the brand SALTPACK)
+					extra = "EVIL TWO "
 				}
 				txt = strings.Replace(good, at, extra+at, 2)
 			}
@@ -167,6 +207,15 @@ func genSmallAlphabet(h *H, maxLen int) {
 		}
 		if h.rng.Intn(8) == 0 {
 			sf.WriteString("X")
+		}
+		if i%3 == 1 {
+			// a genuine pair of sentences whose footer brand is the header's after one character edit
+			typ := []string{"ENCRYPTED MESSAGE", "SIGNED MESSAGE", "DETACHED SIGNATURE"}[h.rng.Intn(3)]
+			b := randBrand(h.rng, 1+h.rng.Intn(9))
+			sb.Reset()
+			sf.Reset()
+			sb.WriteString("BEGIN " + b + " SALTPACK " + typ)
+			sf.WriteString("END " + editBrand(h.rng, b) + " SALTPACK " + typ)
 		}
 		if i%3 == 0 {
 			// near-valid frames: a valid word list with words inserted, deleted or duplicated, the same
